@@ -85,6 +85,7 @@ func checkC06(c *Check) {
 	c.Floor("dispatch rows", 20, len(d.Rows))
 	c.Floor("functions between the ingester callback and the dispatcher", 2, lineReachesDispatcher(c))
 	spacingRule(c) // field values reach the patterns as written (internal spacing preserved by the ingester)
+	nodeNameRule(c)
 	rowOf := map[*ssa.Function][]Row{}
 	for _, r := range d.Rows {
 		rowOf[r.Fn] = append(rowOf[r.Fn], r)
@@ -529,4 +530,113 @@ func lineReachesDispatcher(c *Check) int {
 		target = next
 	}
 	return n
+}
+
+
+// nodeNameRule: the node name given to the sshd processor is this node's
+// name: the value handed to NewSshdProcessor comes from the node-name
+// function, which returns an environment value only when it is non-empty and
+// the host name otherwise (an empty override must not become the name).
+func nodeNameRule(c *Check) {
+	p := c.P
+	ctor := p.Func(pkgSshd, "NewSshdProcessor")
+	if !c.Anchor("sshd.NewSshdProcessor", ctor != nil) {
+		return
+	}
+	// which parameter is stored into the nodeName field
+	idx := -1
+	r := NewResolver(p)
+	allInstrs(ctor, func(in ssa.Instruction) {
+		st, ok := in.(*ssa.Store)
+		if !ok {
+			return
+		}
+		fa, ok := st.Addr.(*ssa.FieldAddr)
+		if !ok || fieldName(fa.X.Type(), fa.Field) != "nodeName" {
+			return
+		}
+		if o := r.Of(st.Val); o.K == "param" {
+			for i, q := range ctor.Params {
+				if ssa.Value(q) == o.V {
+					idx = i
+				}
+			}
+		}
+	})
+	if !c.Anchor("node-name parameter of NewSshdProcessor", idx >= 0) {
+		return
+	}
+	n := 0
+	for _, site := range staticCallers(p, ctor) {
+		if idx >= len(site.Common().Args) {
+			continue
+		}
+		for _, o := range resolveUp(p, site.Parent(), site.Common().Args[idx], 0) {
+			n++
+			name := "node name given to the sshd processor in " + site.Parent().Name()
+			if o.K != "call" || o.Idx != 0 || o.R == nil {
+				c.Unk("node-name-source", name, p.InstrPos(site), "the node name is "+trimOrg(o.String())+", not the result of a function that can be inspected")
+				continue
+			}
+			call := o.V.(*ssa.Call)
+			sc := staticCallee(call.Common())
+			if sc == nil || !InRepo(sc) || sc.Blocks == nil {
+				c.Unk("node-name-source", name, p.InstrPos(site), "the node name is produced by "+o.Name)
+				continue
+			}
+			c.Fn(funcDisplayName(sc))
+			hr := NewResolver(p)
+			bad := ""
+			nret := 0
+			allInstrs(sc, func(in ssa.Instruction) {
+				ret, ok := in.(*ssa.Return)
+				if !ok || len(ret.Results) == 0 {
+					return
+				}
+				var own []Atom
+				for _, g := range GuardsOf(ret) {
+					own = append(own, atomsOf(g))
+				}
+				for _, alt := range condAlts(ret.Results[0], 0) {
+					if alt.V == nil {
+						continue
+					}
+					a := hr.Of(alt.V)
+					var conds []GAtom
+					for _, at := range append(append([]Atom{}, own...), alt.Conds...) {
+						conds = append(conds, mkGAtom(hr, at))
+					}
+					switch {
+					case a.K == "const":
+						// "" together with an error
+					case a.K == "call" && a.Name == "os.Hostname":
+						nret++
+					case a.K == "call" && (a.Name == "os.Getenv" || a.Name == "os.LookupEnv"):
+						nret++
+						// returned only when known to be non-empty
+						okG := false
+						for _, g := range conds {
+							if g.X == nil || g.Y == nil {
+								continue
+							}
+							isEnv := func(x *Org) bool { return x.K == "call" && x.V == a.V && x.Idx <= 0 }
+							isEmpty := func(x *Org) bool { s, ok := x.ConstString(); return ok && s == "" }
+							if (isEnv(g.X) && isEmpty(g.Y)) || (isEnv(g.Y) && isEmpty(g.X)) {
+								if (g.Op == "!=" && g.Pos) || (g.Op == "==" && !g.Pos) {
+									okG = true
+								}
+							}
+						}
+						if !okG {
+							bad = "an environment value is returned without having been tested for emptiness: an empty override becomes the node name and every event carries an empty target host"
+						}
+					default:
+						bad = "the node name can be " + trimOrg(a.String())
+					}
+				}
+			})
+			c.Cond(bad == "" && nret > 0, "node-name-source", name, p.Pos(sc.Pos()), "the non-empty environment override, else the host name", bad)
+		}
+	}
+	c.Floor("node-name sources examined", 1, n)
 }
